@@ -513,7 +513,7 @@ class PESim(object):
             kw["rawsize"] = rawsize
         vsize = None
         last_end = max([s.addr + s.size for s in self.sections] + [0x1000])
-        if self.low_align and mode % 2 == 1:
+        if self.low_align and mode % 8 != 0:
             # low-alignment image: explicit rva aligned on sectionalignment, and the virtual size set
             # afterwards through the header field (add_section forces it to at least one page)
             addr = (last_end + self.salign - 1) & ~(self.salign - 1)
@@ -1227,7 +1227,8 @@ LE_TRIPLES = ["arm-linux-gnueabi", "aarch64-linux-gnu", "mipsel-linux-gnu", "i38
 
 
 def _run(cmd, cwd):
-    p = subprocess.run(cmd, cwd=cwd, stdout=subprocess.PIPE, stderr=subprocess.STDOUT, timeout=120)
+    env = dict(os.environ, TMPDIR=cwd, LC_ALL="C")      # compiler temporaries stay inside the scratch directory
+    p = subprocess.run(cmd, cwd=cwd, env=env, stdout=subprocess.PIPE, stderr=subprocess.STDOUT, timeout=300)
     return p.returncode, p.stdout.decode("utf-8", "replace")
 
 
@@ -1282,3 +1283,22 @@ def build_elf_corpus(scratch, seed, picks, res=None):
         os.unlink(opath)
         out.append((label, kind, data, src))
     return out
+
+
+REPO_SAMPLES = [("repo-md5_arm", "exec", "md5_arm"), ("repo-md5_aarch64l", "exec", "md5_aarch64l"),
+                ("repo-md5_ppc32b", "exec", "md5_ppc32b"), ("repo-dse_crackme", "dyn", "dse_crackme")]
+
+
+def repo_elf_sample(k):
+    """k-th linked ELF shipped in the repository's example/samples (dynamic executables for ARM, AArch64,
+    big-endian PowerPC, x86-64 PIE): the only big-endian *executable* available in the sandbox.
+    -> (label, kind, bytes, "") | None"""
+    from vlib.runner import REPO
+    if not 0 <= k < len(REPO_SAMPLES):
+        return None
+    label, kind, name = REPO_SAMPLES[k]
+    path = os.path.join(REPO, "example", "samples", name)
+    if not os.path.exists(path):
+        return None
+    with open(path, "rb") as f:
+        return (label, kind, f.read(), "")
